@@ -363,6 +363,9 @@ func execOp(line string) (res string) {
 	if bc, err, ok := barcodeOp(f); ok {
 		return classify(bc, err)
 	}
+	if strings.HasPrefix(f[0], "st.") {
+		return stageOp(f)
+	}
 	if out, ok := miscOp(f); ok {
 		return out
 	}
